@@ -243,6 +243,28 @@ func ruleR06ab(c *Ctx) {
 			oblB.expect(k, call.Pos(), "closed on the DryRun edge (nothing is persisted, nothing to wait for)")
 			continue
 		}
+		// the preview branch lives in a helper (`return e.dryRunLog(builder)`): every call of the helper is on the DryRun edge
+		if fn.Parent() == nil && fnPkgPath(origin(fn)) == pkgCommand {
+			n, all := 0, true
+			for _, site := range c.CallersOf(fn) {
+				p := site.Parent()
+				if p == nil || (p.Synthetic != "" && !strings.HasPrefix(p.Synthetic, "instance of")) {
+					continue
+				}
+				if strings.HasSuffix(c.Fset.Position(site.Pos()).Filename, "_test.go") {
+					continue
+				}
+				n++
+				sc, isCall := site.(*ssa.Call)
+				if !isCall || !guardedByFieldFact(c, p, sc, m.fDryRun, true) {
+					all = false
+				}
+			}
+			if n > 0 && all {
+				oblB.expect(k, call.Pos(), "closed in a helper that is only called on the DryRun edge (nothing is persisted, nothing to wait for)")
+				continue
+			}
+		}
 		// a fresh channel closed at once is legitimate only when it accompanies a log that is already
 		// persisted (found by idempotency key)
 		if pairedWithStoredLog(c, m, fn, ev.ch) {
